@@ -165,9 +165,10 @@ class Repo:
                 recv = f.value
                 # self.method(...)
                 if isinstance(recv, ast.Name) and recv.id == 'self' and cur_cls is not None:
-                    # a method value installed by _compile is dynamic -> not resolved here
+                    # a method value installed by _compile is dynamic -> not resolved here;
+                    # so is any name that some method of the class assigns on self
                     fi = self.method(cur_cls, f.attr)
-                    if fi is not None and f.attr not in ('pack', 'unpack', 'clone'):
+                    if fi is not None and f.attr not in ('pack', 'unpack', 'clone') and f.attr not in self.instance_attrs(cur_cls):
                         return fi.node, recv, fi.cls
                     return None
                 # Class.method(self, ...)
@@ -192,6 +193,23 @@ class Repo:
             return None
 
         return resolve
+
+    def instance_attrs(self, ci):
+        """names assigned as ``self.<name> = ...`` by any method of the class or its bases"""
+        key = ('ia', ci.qual)
+        if key in self._mro_cache:
+            return self._mro_cache[key]
+        out = set()
+        for c in self.mro(ci):
+            for fi in c.methods.values():
+                for n in ast.walk(fi.node):
+                    if isinstance(n, (ast.Assign, ast.AugAssign)):
+                        for t in (n.targets if isinstance(n, ast.Assign) else [n.target]):
+                            for x in ast.walk(t):
+                                if isinstance(x, ast.Attribute) and isinstance(x.value, ast.Name) and x.value.id == 'self' and isinstance(x.ctx, ast.Store):
+                                    out.add(x.attr)
+        self._mro_cache[key] = out
+        return out
 
     def walker(self, inline_depth=0, max_paths=4096, recv_types=None, fold=None, tag=None):
         return Walker(self.resolver(recv_types), max_paths=max_paths, inline_depth=inline_depth, fold=fold, tag=tag)
